@@ -605,13 +605,58 @@ def _center_extras(res, cfg, reg, case, data, box, PixCoord):
 
 
 # -------------------------------------------------------------------- driver --
+AXIS_CENTRES = [(0.0, 0.0), (0.5, 0.5), (3.0, -2.0), (2.5, 1.5), (0.5, 0.0), (-7.0, 4.5)]
+AXIS_SIZES = [(4.0, 2.0), (3.0, 5.0), (2.0, 2.0), (1.0, 3.0), (6.0, 1.0), (8.0, 8.0)]
+
+
+def check_axis_aligned(res, centre, size, inc):
+    """Unrotated rectangles with dyadic centre and size: every pixel centre, those exactly ON an edge included, is decided in exact
+    arithmetic both by contains() and by the mask kernel -- so here the mask must equal the membership of the pixel centres bit for bit
+    (an edge through pixel centres is the one place where 'member' depends on the strict inequality)."""
+    import astropy.units as u
+    from regions import PixCoord, RectanglePixelRegion
+    case = {'op': 'axis_aligned', 'centre': list(centre), 'size': list(size), 'include': inc}
+    res.states += 1
+    res.evaluations += 1
+    meta = {} if inc == 'absent' else {'include': inc}
+    try:
+        reg = RectanglePixelRegion(PixCoord(*centre), size[0], size[1], angle=0 * u.deg, meta=meta)
+        plain = RectanglePixelRegion(PixCoord(*centre), size[0], size[1], angle=0 * u.deg)
+        bb = reg.bounding_box
+        yy, xx = np.mgrid[bb.iymin:bb.iymax, bb.ixmin:bb.ixmax]
+        want = np.asarray(plain.contains(PixCoord(xx.astype(float), yy.astype(float))), bool)
+        on_edge = (np.abs(np.abs(xx - centre[0]) - size[0] / 2) == 0) | (np.abs(np.abs(yy - centre[1]) - size[1] / 2) == 0)
+        for mode, kw in (('center', {}), ('subpixels', {'subpixels': 1})):
+            res.transitions += 1
+            m = reg.to_mask(mode=mode, **kw)
+            got = np.asarray(m.data)
+            if got.shape != want.shape or not np.array_equal(got != 0, want) or not np.array_equal(got, want.astype(got.dtype)):
+                bad = np.argwhere((got != 0) != want) if got.shape == want.shape else []
+                first = (int(xx[tuple(bad[0])]), int(yy[tuple(bad[0])])) if len(bad) else None
+                res.violation(ID, 'center_value_wrong', {**case, 'mode': mode},
+                              f'rectangle {size[0]}x{size[1]} at {centre}, angle 0, mode {mode}: the mask differs from the membership of the pixel '
+                              f'centres at {len(bad)} pixel(s), first {first} (a pixel centre exactly on an edge is not a member)',
+                              want.astype(int).tolist(), got.tolist())
+        if on_edge.any():
+            res.nontriv(('axis_aligned', tuple(centre), tuple(size), str(inc)))
+        res.outcome(('axis_aligned', bool(on_edge.any())))
+    except Exception as exc:          # noqa: BLE001
+        res.violation(ID, 'unexpected_exception', case, f'axis-aligned rectangle {size} at {centre} raised {type(exc).__name__}: {exc}')
+
+
 def shards(tier, seed):
     cfgs = configs(tier, seed)
-    return chunks(cfgs, 64 if tier == 'quick' else 256)
+    return chunks(cfgs, 64 if tier == 'quick' else 256) + [{'axis_aligned': True}]
 
 
 def run_shard(shard, tier, seed):
     res = Result()
+    if shard.get('axis_aligned'):
+        for c in AXIS_CENTRES:
+            for sz in AXIS_SIZES:
+                for inc in ('absent', False):
+                    check_axis_aligned(res, c, sz, inc)
+        return res
     ns = NS[tier]
     for c in shard['cases']:
         spec = c['spec']
@@ -624,6 +669,9 @@ def run_shard(shard, tier, seed):
 
 def replay(case):
     res = Result()
+    if case.get('op') == 'axis_aligned':
+        check_axis_aligned(res, tuple(case['centre']), tuple(case['size']), case['include'])
+        return res
     only = (case['mode'], case['n'], case['form']) if 'mode' in case else None
     check_config(res, case['spec'], NS['thorough'], aux=True, only=only)
     return res
